@@ -1,8 +1,10 @@
 --------------------------- MODULE MultipolygonGen ---------------------------
-(* C16 case generation: every member list of every shape in Shapes (the completed member lists of the    *)
-(* generating machine of Multipolygon.tla), written as ndjson.  The orientation masks, the relation type *)
-(* and the node order are spread deterministically over the cases.                                       *)
-EXTENDS MultipolygonMC, IOUtils, Json
+(* C16 case generation.  TLC explores the generating machine of Multipolygon.tla (NextGen = AddCut, CloseRing,   *)
+(* Place); every completed member list is appended to the file IOEnv.OUT as one JSON line.                       *)
+(*   exhaustive: breadth-first search, invariant EmitFile  (every cut / reversal / member order of every shape)   *)
+(*   sampled:    -simulate, invariant EmitSim (larger shapes; one random case per behaviour, random mask)         *)
+(* The orientation masks, the relation type and the node order are spread deterministically over the cases.     *)
+EXTENDS MultipolygonMC, IOUtils, Json, CSV
 
 MasksOf(ms) == LET n == Len(ms) IN
   IF n = 1 THEN <<NoneMask(n), AllMask(n)>>
@@ -12,12 +14,12 @@ CaseRec(gg, ms) == [g |-> gg, members |-> ms, masks |-> MasksOf(ms),
                     rtype |-> IF Idx(ms[Len(ms)].nodes[1]) % 2 = 1 THEN "multipolygon" ELSE "boundary",
                     norder |-> (Idx(ms[1].nodes[1]) + Len(ms)) % 3]
 
-CONSTANTS Slice, NSlices     \* this process writes the combinations with index = Slice (mod NSlices)
+SimCase == LET n == Len(members) IN
+  [g |-> g, members |-> members,
+   masks |-> <<NoneMask(n), AllMask(n), RandomElement([1 .. n -> BOOLEAN])>>,
+   rtype |-> RandomElement({"multipolygon", "boundary"}), norder |-> RandomElement({0, 1, 2})]
 
-SliceOf(gg) == LET cs == SetToSeq(Combos(gg, Len(gg))) IN {cs[i] : i \in {i \in 1 .. Len(cs) : i % NSlices = Slice}}
-AllCases == UNION {UNION {{CaseRec(gg, ms) : ms \in OrdersOf(gg, P)} : P \in SliceOf(gg)} : gg \in Shapes}
-ASSUME LET A == AllCases IN ndJsonSerialize(IOEnv.OUT, SetToSeq(A)) /\ PrintT(<<"NCASES", Cardinality(A)>>)
-
-JInit0 == g = << >> /\ pat = "" /\ cutr = 0 /\ cuts = {} /\ pool = {} /\ members = << >> /\ run = NoRun /\ st = A0
-JNext0 == UNCHANGED vars
+Complete == cutr > Len(g) /\ pool = {}
+EmitFile == Complete => CSVWrite("%1$s", <<ToJson(CaseRec(g, members))>>, IOEnv.OUT)
+EmitSim  == Complete => CSVWrite("%1$s", <<ToJson(SimCase)>>, IOEnv.OUT)
 =============================================================================
